@@ -38,6 +38,8 @@ pub fn kind_of(k: u8) -> io::ErrorKind {
         3 => io::ErrorKind::ConnectionReset,
         4 => io::ErrorKind::ConnectionAborted,
         5 => io::ErrorKind::BrokenPipe,
+        6 => io::ErrorKind::ConnectionRefused,
+        7 => io::ErrorKind::AddrNotAvailable,
         _ => io::ErrorKind::Other,
     }
 }
@@ -108,8 +110,19 @@ impl Read for Script {
     }
 }
 
+thread_local! {
+    /// how many bytes a scripted connection takes per `write` call (a socket may take fewer than it is offered)
+    static WRITE_LIMIT: std::cell::Cell<usize> = const { std::cell::Cell::new(usize::MAX) };
+}
+
+pub fn set_write_limit(n: usize) {
+    WRITE_LIMIT.with(|w| w.set(n.max(1)));
+}
+
 impl Write for Script {
     fn write(&mut self, buf: &[u8]) -> io::Result<usize> {
+        let n = buf.len().min(WRITE_LIMIT.with(|w| w.get()));
+        let buf = &buf[..n];
         let mut log = self.log.lock().unwrap();
         log.written.extend_from_slice(buf);
         log.writes.push(buf.len());
